@@ -16,6 +16,27 @@ from .values import (Sym, SArr, SSeq, SObj, Opaque, ModuleRef, ClassRef, FuncVal
                      is_scalar, exc_isinstance, EXC_PARENT)
 
 
+def subst_value(v, kc, kz):
+    """v[kc := kz] for interpreter values built from z3 terms"""
+    if isinstance(v, Sym):
+        return Sym(z3.substitute(v.t, (kc, kz)), None if v.nan is None else (z3.substitute(T.zb(v.nan), (kc, kz)) if T.is_z3(v.nan) else v.nan))
+    if isinstance(v, SArr):
+        g = v.getter()
+        ng = v.nan_getter()
+
+        def sub(t):
+            return z3.substitute(t, (kc, kz)) if T.is_z3(t) else t
+        shape = tuple(sub(e) for e in v.shape)
+        return SArr.fresh(shape, lambda idx: sub(g(idx)), v.dtype, None if ng is None else (lambda idx: sub(ng(idx))))
+    if isinstance(v, tuple):
+        return tuple(subst_value(x, kc, kz) for x in v)
+    if isinstance(v, list):
+        return [subst_value(x, kc, kz) for x in v]
+    if v is None or isinstance(v, (bool, int, Fraction, str)):
+        return v
+    raise Unsupported(f"comprehension element of type {type(v).__name__} over a symbolic-length sequence")
+
+
 class _Return(Exception):
     def __init__(self, value):
         self.value = value
@@ -701,7 +722,8 @@ class Interp:
         """(trip count term, fn(k)->item) for iterables of symbolic length"""
         if isinstance(it, SArr):
             n = it.shape[0]
-            return n, (lambda k: A.basic_index(self.cx, it, (wrap(k),)))
+            snap = it.snapshot()  # iteration reads the contents at loop / comprehension entry
+            return n, (lambda k: A.basic_index(self.cx, snap, (wrap(k),)))
         if isinstance(it, SSeq):
             return it.length, (lambda k: it.elem(k))
         if isinstance(it, Opaque) and hasattr(it, "symbolic_iter"):
@@ -1421,13 +1443,39 @@ class Interp:
             raise Unsupported("filtered comprehension over symbolic sequence")
         if kind == "dict":
             raise Unsupported("dict comprehension over symbolic sequence")
+        # evaluate the element expression ONCE, now (later in-place changes must not leak in), at a symbolic
+        # position kc; element k is obtained by substituting kc := k
         n, item_at = self.symbolic_iter(it)
-        itp = self
-
-        def elem(k, node=node, g=g, env=env):
+        cx = self.cx
+        kc = cx.fresh("ci", "int")
+        guard = z3.And(kc >= 0, kc < T.zi(n))
+        cx.guards.append(guard)
+        cx.lift_vars.append(kc)
+        cx.no_branch += 1
+        old_log = cx.fact_log
+        cx.fact_log = []
+        try:
             e2 = Env(parent=env)
-            itp.assign(g.target, item_at(k), e2)
-            return itp.eval(node.elt, e2)
+            self.assign(g.target, item_at(kc), e2)
+            V = self.eval(node.elt, e2)
+            flog = cx.fact_log
+        finally:
+            cx.guards.pop()
+            cx.lift_vars.pop()
+            cx.no_branch -= 1
+            cx.fact_log = old_log
+
+        def elem(k, V=V, kc=kc, flog=flog):
+            if T.is_z3(k) and z3.eq(k, kc):
+                return V
+            kz = T.zi(k)
+            if not cx.in_quant:
+                for f in flog:
+                    cx.fact(z3.substitute(f, (kc, kz)), "instance of a comprehension-body fact")
+            return subst_value(V, kc, kz)
+        if kind == "list":
+            from .values import SList
+            return SList(n, elem, "listcomp")
         return SSeq(n, elem, "list")
 
     def ex_ListComp(self, node, env):
